@@ -1,11 +1,30 @@
 """C01 - Push programs evaluate to the state the instruction semantics prescribe."""
+import json
+import os
 import vlib
 import vmcheck
 
 LEVEL = "model_checking"
 
 
+def cases_stage(ck, runs, first=0, tag="cases"):
+    """push::evaluation::Cases (the training-case collection every example scorer is built on) is
+    not part of a listed property; its specification spec/eval/Cases.tla is checked and bound here."""
+    path = os.path.join(ck.work, f"{tag}-trace.ndjson")
+    ck.harness(["cases-trace", "--seed", ck.seed, "--runs", runs, "--first-run", first, "--len", 40, "--out", path])
+    ck.validate_runs("eval/Trace_Cases", "eval/Trace_Cases.cfg", path,
+                     lambda ev, prefix: f"trace:cases:{ev.get('name') or ev.get('ev')}",
+                     lambda ev, prefix: ("a history of push::evaluation::Cases is not a behaviour of Cases.tla: first "
+                                         f"unmatched event {json.dumps(ev)[:600]} after {json.dumps(prefix[-1])[:300] if prefix else ''}"),
+                     regen=lambda ev: {"seed": ck.seed, "run": ev.get("run"), "cases": True}, timeout=1200)
+    return len(vlib.read_ndjson(path))
+
+
 def run(ck):
+    cres = ck.tlc_model("eval/MC_Cases", "eval/MC_Cases.cfg", workers=2, timeout=900, tag="cases")
+    ncases = cases_stage(ck, 40 if ck.tier == "quick" else 2000)
+    ck.cov["conformance"]["evaluation_cases_model_states"] = cres.distinct
+    ck.cov["conformance"]["evaluation_cases_events_validated"] = ncases
     res, summ = vmcheck.mc_step(ck)
     rres, rsumm = vmcheck.mc_run(ck)
     stats, instrs = vmcheck.tv(ck)
@@ -28,4 +47,7 @@ def run(ck):
 
 
 def replay(ck, obj):
+    if obj.get("regen", {}).get("cases"):
+        cases_stage(ck, 1, first=obj["regen"]["run"], tag="one")
+        return
     vmcheck.replay_one(ck, obj)
